@@ -53,6 +53,8 @@ type event struct {
 	RootOK  bool         `json:"rootok"`
 	Route   string       `json:"route,omitempty"`
 	NoModel bool         `json:"nomodel"`
+	// the key's descriptor names a hash function the library does not implement: judged as a counter only
+	CounterOnly bool `json:"counteronly"`
 }
 
 var (
@@ -161,6 +163,7 @@ func (k *keyObj) emitState(e *event) {
 // newKey wraps a freshly constructed object and emits KeyGen. tree may be shared
 // by objects of the same family (same seed and parameters).
 var noModel bool // tall trees: observables only
+var counterOnly bool
 
 func newKey(x *xmss.XMSS, fam int, tree *xproj.Tree, route string, tr *trace.Buf) *keyObj {
 	k := &keyObj{x: x, id: nextKey(), fam: fam, h: int(x.GetHeight()), tr: tr}
@@ -173,6 +176,7 @@ func newKey(x *xmss.XMSS, fam int, tree *xproj.Tree, route string, tr *trace.Buf
 	e := k.base("KeyGen")
 	e.Route = route
 	e.NoModel = noModel
+	e.CounterOnly = counterOnly
 	e.RootOK = string(x.GetRoot()) == string(tree.Root())
 	k.emitState(&e)
 	tr.Emit(e)
@@ -399,6 +403,55 @@ func jumps(h int, hf xmss.HashFunction, seed [48]uint8, mode string, stride int,
 		tr.Append(b)
 	}
 	k.drop(true)
+	return sigs
+}
+
+// counter: keys whose descriptor carries a hash-function id the library does not implement (3..15). The
+// constructors accept them and the objects sign; C02 speaks about every key object, so their whole life is
+// walked as a counter automaton: every Sign up to and beyond exhaustion, refused jumps, a forward jump.
+func counter(h int, seed [48]uint8, r *rand.Rand, tr *trace.Buf) int {
+	noModel, counterOnly = true, true
+	defer func() { noModel, counterOnly = false, false }()
+	n := 1 << uint(h)
+	sigs := 0
+	ids := []int{3, 4 + r.Intn(11), 15}
+	for ci, id := range ids {
+		var x *xmss.XMSS
+		route := "seed"
+		if ci == 1 { // through the descriptor bytes of an extended seed
+			d := xmss.NewQRLDescriptor(uint8(h), xmss.HashFunction(id), common.XMSSSig, common.SHA256_2X).GetBytes()
+			var es [common.ExtendedSeedSize]uint8
+			copy(es[:], d[:])
+			copy(es[common.DescriptorSize:], seed[:])
+			x = xmss.NewXMSSFromExtendedSeed(es)
+			route = "extendedSeed"
+		} else {
+			x = xmss.NewXMSSFromSeed(seed, uint8(h), xmss.HashFunction(id), common.SHA256_2X)
+		}
+		k := newKey(x, nextFam(), nil, route, tr)
+		m := 0
+		sg := func() {
+			if _, rr := k.sign(m); rr == "ok" {
+				sigs++
+			}
+			m++
+		}
+		sg()
+		sg()
+		k.setIndex(0) // rewind: refused
+		k.setIndex(uint32(n))
+		if ci == 2 {
+			k.setIndex(uint32(n/2 + 1))
+		}
+		for q := 0; q < n+2 && int(k.x.GetIndex()) < n; q++ {
+			sg()
+		}
+		sg() // exhausted: refused, twice
+		sg()
+		k.setIndex(uint32(n - 1))
+		k.setIndex(^uint32(0))
+		k.drop(true)
+	}
 	return sigs
 }
 
@@ -787,6 +840,8 @@ func main() {
 				st.Signatures += tallRebuild(*h, hf, seedFrom(r), r, tr)
 			case "tall":
 				st.Signatures += tall(*h, hf, seedFrom(r), r, tr)
+			case "counter":
+				st.Signatures += counter(*h, seedFrom(r), r, tr)
 			case "plan":
 				st.Signatures += plan(*h, hf, *planFile, r, tr)
 			default:
